@@ -1,6 +1,8 @@
 package keeper
 
 import (
+	"math/big"
+
 	"github.com/armon/go-metrics"
 	"github.com/chain4energy/c4e-chain/x/cfedistributor/types"
 	"github.com/cosmos/cosmos-sdk/telemetry"
@@ -142,6 +144,16 @@ func prepareLeftCoinToDistribute(coinsToDistribute sdk.DecCoins, source types.Ac
 	return coinsToDistribute
 }
 
+// amountToTrace returns the traced denom amount for telemetry without going through int64 (Int64() panics above 2^63-1)
+func amountToTrace(coins sdk.Coins) float32 {
+	amount := coins.AmountOf(types.DenomToTrace)
+	if amount.IsInt64() {
+		return float32(amount.Int64())
+	}
+	f, _ := new(big.Float).SetInt(amount.BigInt()).Float32()
+	return f
+}
+
 func (k Keeper) burnCoins(ctx sdk.Context, state *types.State) {
 	toSend, change := state.Remains.TruncateDecimal()
 
@@ -151,7 +163,7 @@ func (k Keeper) burnCoins(ctx sdk.Context, state *types.State) {
 		k.Logger(ctx).Debug("Coins burned", "coins", toSend)
 		defer telemetry.SetGaugeWithLabels(
 			[]string{types.ModuleName, "coin_send", types.BurnDestination},
-			float32(toSend.AmountOf(types.DenomToTrace).Int64()),
+			amountToTrace(toSend),
 			[]metrics.Label{telemetry.NewLabel("denom", types.DenomToTrace)},
 		)
 		state.Remains = change
@@ -167,7 +179,7 @@ func (k Keeper) sendCoinsToModuleAccount(ctx sdk.Context, state *types.State) {
 		k.Logger(ctx).Debug("coins sent to module account dst", "accountId", state.Account.Id, "toSend", toSend.String())
 		defer telemetry.SetGaugeWithLabels(
 			[]string{types.ModuleName, "coin_send", state.Account.Id},
-			float32(toSend.AmountOf(types.DenomToTrace).Int64()),
+			amountToTrace(toSend),
 			[]metrics.Label{telemetry.NewLabel("denom", types.DenomToTrace)},
 		)
 		state.Remains = change
@@ -185,7 +197,7 @@ func (k Keeper) sendCoinsToBaseAccount(ctx sdk.Context, state *types.State) {
 		k.Logger(ctx).Debug("coins sent to base account dst", "accountId", state.Account.Id, "toSend", toSend)
 		defer telemetry.SetGaugeWithLabels(
 			[]string{types.ModuleName, "coin_send", state.Account.Id},
-			float32(toSend.AmountOf(types.DenomToTrace).Int64()),
+			amountToTrace(toSend),
 			[]metrics.Label{telemetry.NewLabel("denom", types.DenomToTrace)},
 		)
 		state.Remains = change
